@@ -245,38 +245,76 @@ BRIDGE_TB["EdsProofs.BridgeCanaryStatus"] = (
 BRIDGE_TB["EdsProofs.BridgeRolling"] = (
     "the classification loop of ManageDeployment (strategy/rollingupdate.go: `for node, pod := range params.PodByNodeName`, iteration over a Go "
     "MAP) is cut out of the function by the translator (a statement fragment: a function of the locals the statement reads, returning the locals "
-    "it assigns; the rest of ManageDeployment talks to the API server and is not translated) and TRANSLATED on every run "
+    "it assigns; the whole function is translated too, see BridgeDeployment -- the fragment stays as the tie of the loop alone) and TRANSLATED on every run "
     "(Generated/DecRolling.lean); src_manageDeploymentClassify proves it equal to the model's countAll (every counter, the creation list) and to "
     "the deletion candidates in iteration order, for EVERY association list, i.e. every iteration order; src_delOrder_partition: the stable "
-    "partition of that list by availability (what sort.SliceStable computes next -- library code, not translated) is the model's "
+    "partition of that list by availability (what sort.SliceStable computes next: BridgeDeployment, src_sortDeleteCandidates) is the model's "
     "toDeleteUnavail ++ toDeleteAvail. Hypothesis: the wall clock (two reads per iteration in HasPodSchedulerIssue, translated as functions of the "
     "iteration index) does not advance during the loop -- the model evaluates the loop at one instant")
+BRIDGE_TB["EdsProofs.BridgeDeployment"] = (
+    "ManageDeployment (strategy/rollingupdate.go) is TRANSLATED AS A WHOLE on every run (Generated/DecDeployment.lean, with cleanupPods; calling the "
+    "translated functions of DecCanary / DecSlowStart / DecConds / DecStatus / DecPodCompare and Generated/Limits.lean): the three condition updates "
+    "through params.NewStatus, the deletion of the canary nodes from the Go map PodByNodeName, the percentage resolutions, the classification loop, "
+    "calculateMaxCreation, the limits kernel, the min with the candidate counts, the stable sort of the deletion candidates, the two slicings xs[:n], "
+    "the paused / frozen gates, the status counters, manageUnscheduledPodNodes, the PodsCleanupDone condition, the requeue flag and the five-minute "
+    "window of the canary-label clean-up. src_manageDeployment (EdsProofs/BridgeDeployment.lean) proves it EQUAL to the model's manageDeployment "
+    "(result lists, flags, status, requeue, error, and params as the caller sees it afterwards; panics included: src_manageDeployment_panics_iff), for "
+    "EVERY content and order of the two maps as association lists under MapsRel and distinct keys (KeysNodup: a Go map has one entry per key -- "
+    "needed for len(map) and for the comparator's lookups), a clock that does not advance during the classification loop. NOT translated, assumed "
+    "to return normally and to change nothing of the translated state but what is stated: the API steps -- deletePodSlice inside cleanupPods "
+    "(goroutines, client.Delete; its result, the error list, is a universally quantified parameter) and the statement `if err = client.List(...); "
+    "... deletePodLabel ...` of the canary-label clean-up (the values of `err` and `result.Result.Requeue` after it are universally quantified "
+    "parameters; the model leaves that clean-up to reconcileErs). Mapped to model functions, tied by correspondence only: sort.SliceStable -> "
+    "Go.stableSortBy = List.mergeSort with the TRANSLATED comparator (proved a two-class strict weak ordering on the candidates, the sort proved to be "
+    "the model's toDeleteUnavail ++ toDeleteAvail: src_sortDeleteCandidates), xs[:n] -> Go.sliceTo (none beyond the length), "
+    "utilerrors.NewAggregate -> Go.newAggregate, intstr.GetValueFromIntOrPercent -> resolveIntOrPercent; logging and the metric update are dropped "
+    "(their arguments still evaluated). Code-level corollaries EdsProps/DeploymentSrc.lean (C03_src_deploy_*, C08_src_deploy_sync, "
+    "C09_src_deploy_create_bound, C02_src_deploy_fixpoint)")
+BRIDGE_TB["EdsProofs.BridgeUnknown"] = (
+    "ManageUnknown (strategy/unknown.go) is TRANSLATED AS A WHOLE on every run (Generated/DecUnknown.lean: the deletion of the canary nodes from the "
+    "Go map PodByNodeName, the iteration over the map, the status and the requeue request; its API client parameter is unused) and proved EQUAL to "
+    "the model's manageUnknown (EdsProofs/BridgeUnknown.lean, src_manageUnknown: never panics, no error, the model's status and requeue, params left "
+    "with the canary nodes deleted) for every content and order of the two maps under MapsRel, with a clock that does not advance during the loop")
+BRIDGE_TB["EdsProofs.BridgeStrategy"] = (
+    "applyStrategy (controllers/extendeddaemonsetreplicaset/controller.go: the role switch of the replica-set reconciler, a method -- `r.client` is "
+    "the API client handle) and ManageCanaryDeployment (strategy/canary.go: manageCanaryStatus, then the unscheduled nodes, cleanupPods and the "
+    "prompt requeue on a failed label or clean-up call) are TRANSLATED AS WHOLE FUNCTIONS on every run (Generated/DecStrategy.lean, calling the "
+    "translated ManageDeployment / ManageUnknown / manageCanaryStatus / cleanupPods) and proved equal to the model as reconcileErs composes it "
+    "(EdsProofs/BridgeStrategy.lean): src_applyStrategy_active = the model's manageDeployment on the parameters with preConds \"active\" "
+    "(deployOut), src_applyStrategy_unknown = manageUnknown with preConds \"unknown\", src_applyStrategy_canary / src_manageCanaryDeployment = "
+    "manageCanaryStatus with preConds \"canary\" followed by the unscheduled nodes, the PodsCleanupDone condition and the requeue "
+    "(canaryDeployResult), src_applyStrategy_other (any other role string: a nil result). API steps as universally quantified parameters: "
+    "ensureCanaryPodLabels (an API loop: its error), deletePodSlice (its errors), and those of ManageDeployment")
 BRIDGES = {
     "C05": ["EdsProofs.BridgeCanary"],
-    "C08": ["EdsProofs.BridgeCanary", "EdsProofs.BridgePodCompare", "EdsProofs.BridgeCanaryStatus"],
-    "C03": ["EdsProofs.BridgePodCompare", "EdsProofs.BridgeRolling"],
+    "C08": ["EdsProofs.BridgeCanary", "EdsProofs.BridgePodCompare", "EdsProofs.BridgeCanaryStatus", "EdsProofs.BridgeDeployment"],
+    "C03": ["EdsProofs.BridgePodCompare", "EdsProofs.BridgeRolling", "EdsProofs.BridgeDeployment"],
+    "C02": ["EdsProofs.BridgeDeployment"],
     "C10": ["EdsProofs.BridgePodCompare"],
-    "C14": ["EdsProofs.BridgeCanary", "EdsProofs.BridgeConds", "EdsProofs.BridgeStatus", "EdsProofs.BridgePodCompare", "EdsProofs.BridgeRolling"],
+    "C14": ["EdsProofs.BridgeCanary", "EdsProofs.BridgeConds", "EdsProofs.BridgeStatus", "EdsProofs.BridgePodCompare", "EdsProofs.BridgeRolling",
+            "EdsProofs.BridgeDeployment", "EdsProofs.BridgeUnknown", "EdsProofs.BridgeStrategy"],
     "C04": ["EdsProofs.BridgeConds", "EdsProofs.BridgePodCompare", "EdsProofs.BridgeCanaryStatus"],
-    "C06": ["EdsProofs.BridgeConds", "EdsProofs.BridgeStatus", "EdsProofs.BridgePodCompare", "EdsProofs.BridgeCanaryStatus"],
+    "C06": ["EdsProofs.BridgeConds", "EdsProofs.BridgeStatus", "EdsProofs.BridgePodCompare", "EdsProofs.BridgeCanaryStatus", "EdsProofs.BridgeStrategy"],
     "C19": ["EdsProofs.BridgeCanary"],
     "C01": ["EdsProofs.BridgeStatus"],
     "C18": ["EdsProofs.BridgeStatus"],
     "C07": ["EdsProofs.BridgeCleanup", "EdsProofs.BridgeCanary", "EdsProofs.BridgeStatus"],
     "C13": ["EdsProofs.BridgeCleanup"],
     "C16": ["EdsProofs.BridgeDefaults", "EdsProofs.BridgeSlowStart"],
-    "C09": ["EdsProofs.BridgeSlowStart"],
+    "C09": ["EdsProofs.BridgeSlowStart", "EdsProofs.BridgeDeployment"],
 }
 SRC_THEOREMS = {
     "C06": [("EdsProps.C06s", "C06_src_"), ("EdsProps.CanaryStatusSrc", "C06_src_")],
     "C14": [("EdsProps.C14s", "C14_src_"), ("EdsProps.CanaryStatusSrc", "C14_src_")],
     "C04": [("EdsProps.CanaryStatusSrc", "C04_src_")],
     "C05": [("EdsProps.C05s", "C05_src_")],
-    "C08": [("EdsProps.C08s", "C08_src_"), ("EdsProps.CanaryStatusSrc", "C08_src_")],
+    "C08": [("EdsProps.C08s", "C08_src_"), ("EdsProps.CanaryStatusSrc", "C08_src_"), ("EdsProps.DeploymentSrc", "C08_src_")],
     "C07": [("EdsProps.C07s", "C07_src_"), ("EdsProps.C14s", "re:^(C07_src_|C14_src_failed)")],
     "C13": [("EdsProps.C07s", "C07_src_")],
     "C16": [("EdsProps.C16s", "C16_src_")],
-    "C09": [("EdsProps.C09s", "C09_src_")],
+    "C09": [("EdsProps.C09s", "C09_src_"), ("EdsProps.DeploymentSrc", "C09_src_")],
+    "C03": [("EdsProps.DeploymentSrc", "C03_src_")],
+    "C02": [("EdsProps.DeploymentSrc", "C02_src_")],
 }
 for _p, _l in SRC_THEOREMS.items():
     PROPS[_p]["extra_theorems"] = PROPS[_p].get("extra_theorems", []) + _l
